@@ -225,6 +225,9 @@ def check(ctx):
     stream.r26_append_order(ctx)
     duplicate_clauses(ctx)
     concatenate_clauses(ctx)
+    from rules import independence
+    independence.r28_functions(ctx, [('dataflows.processors.concatenate:concatenator', {}),
+                                     ('dataflows.processors.duplicate:saver', {}), ('dataflows.processors.duplicate:loader', {})])
     run.trusted += ['LF5 KVFile.insert_generator yields what it stores; items() iterates in ascending key order; equal keys overwrite',
                     'itertools.chain / islice']
     run.not_decided += ["concatenate's run detection beyond the structural typestate checked here; field mapping on values",
